@@ -132,6 +132,19 @@ def make_frame(ctx, pu, kind, tagged, npay):
          list(ctx.bytes('ipsrc', 4)) + list(ctx.bytes('ipdst', 4)) + opts
     b += [0x08, 0x00] + ip + seg
     f = Frame(b, tagged, 'ip', l4, 5 + len(opts) // 4)
+  elif kind == 'udp_padded':
+    # a short IPv4/UDP frame padded to the Ethernet minimum (60 octets): the padding behind the IP datagram belongs to the frame
+    sp = ctx.int('sport', 0, 0xffff); dp = ctx.int('dport', 0, 0xffff)
+    for v in SPECIAL_UDP: ctx.assume(ctx.And(sp != v, dp != v))
+    seg = be(sp, 2) + be(dp, 2) + be(8 + npay, 2) + [0, 0] + pay
+    ip = [0x45, ctx.int('tos', 0, 255)] + be(20 + len(seg), 2) + be(ctx.int('ipid', 0, 0xffff), 2) + [0x40, 0] + [ctx.int('ttl', 0, 255), 17, 0, 0] + \
+         list(ctx.bytes('ipsrc', 4)) + list(ctx.bytes('ipdst', 4))
+    b += [0x08, 0x00] + ip + seg
+    npad = 60 - len(b)
+    f = Frame(b, tagged, 'ip', 'udp', 5)
+    fix_checksums(ctx, pu, f)
+    f.b = f.b + list(ctx.bytes('padding', npad))
+    return f
   elif kind == 'udp_frag1':
     # the first fragment of a UDP datagram (MF set, offset 0): the UDP length field counts the whole datagram, the checksum covers data that is
     # not in this frame
@@ -248,7 +261,7 @@ def h_rewrite(ctx, kind, tagged, codes, npay=2):
     if d[0] == 'out': expect.append((d[1], list(cur.b)))
     else: ref_apply(ctx, pu, cur, d)
   ctx.check('number of emitted frames', len(outs) == len(expect))
-  tag = '[icmp-quote-truncated] ' if kind == 'icmperr_trunc' else '[udp-first-fragment] ' if kind == 'udp_frag1' else ''
+  tag = '[icmp-quote-truncated] ' if kind == 'icmperr_trunc' else '[udp-first-fragment] ' if kind == 'udp_frag1' else '[ip-padding] ' if kind == 'udp_padded' else ''
   for (p, got), (ep, eb) in zip(outs, expect):
     ctx.check('egress port', p == ep)
     ctx.check(tag + 'emitted length', len(got) == len(eb))
@@ -256,7 +269,7 @@ def h_rewrite(ctx, kind, tagged, codes, npay=2):
   for p in (1, 2, 3, 4):
     st = sw.port_stats[p]
     mine = [eb for ep, eb in expect if bool(ep == p)]
-    ctx.check(('[udp-first-fragment] ' if kind == 'udp_frag1' else '') + 'tx counters equal the frames and bytes actually transmitted',
+    ctx.check(('[udp-first-fragment] ' if kind == 'udp_frag1' else '[ip-padding] ' if kind == 'udp_padded' else '') + 'tx counters equal the frames and bytes actually transmitted',
               ctx.And(st.tx_packets == len(mine), st.tx_bytes == sum(len(eb) for eb in mine)))
   ctx.witness('done')
 
@@ -421,6 +434,7 @@ def obligations(tier):
     cases.append(dict(kind='icmperr', tagged=t, codes=[A_OUT]))
   cases.append(dict(kind='icmperr_trunc', tagged=False, codes=[A_OUT]))
   cases.append(dict(kind='udp_frag1', tagged=False, codes=[A_OUT]))
+  cases.append(dict(kind='udp_padded', tagged=False, codes=[A_OUT]))
   # pairs: output between rewrites (snapshot semantics), and rewrite pairs
   pairs = [(a, b) for a in REWRITES for b in REWRITES]
   for i, (a, b) in enumerate(pairs):
